@@ -123,6 +123,9 @@ func verifActive(id string) bool {
 	if !ok || strings.HasPrefix(id, "MODEL:") {
 		return true
 	}
+	if id == "frame-write" {
+		return verifParams["__frame"] == "1"
+	}
 	for _, p := range strings.Split(ps, ",") {
 		if p == "*" || strings.HasPrefix(id, p) {
 			return true
